@@ -296,6 +296,12 @@ func c14FuncCase(name string, s c14Shape) *pgen.Case {
 		body = "return \"\""
 	}
 	sig := "(" + strings.Join(params, ", ") + ")" + resText(s.results, tgtT)
+	// a second, unrelated custom function in the same file whose context is NAMED like the first parameter of Fn:
+	// goverter:context lines belong to the function they are attached to
+	if s.named && len(s.roles) > 0 && s.use != "structmethod" {
+		first := strings.Fields(params[0])[0]
+		fmt.Fprintf(&sb, "// goverter:context %s\nfunc Unrelated(x KB, %s CtxQ2) KB { return x }\n\n", first, first)
+	}
 	var conv, meth []string
 	if s.regexAt == "meth" {
 		conv = append(conv, "arg:context:regex ^zzz")
